@@ -93,7 +93,7 @@ Example demo_step_hyps :
   let w := wof demo in let o := OpCreateNamed 4 nSYSTEM (BS "T") in
   TreeFacts w /\ Inv04 tiny tiny_check_fn w /\ Inv05 tiny w /\
   Known04 tiny LATEST w o = false /\ Known05 tiny tiny_el tiny_en tiny_check_fn LATEST [] w o = false /\
-  Pending04 tiny w o = false /\ Pending05 w o = false /\
+  Pending04 w o = false /\ Pending05 w o = false /\
   exists i w', Tiny.run o w = Val (OK (VElem i), w').
 Proof.
   cbv zeta. destruct demo_inv as (H1 & H2 & H3). repeat (split; [assumption || (vm_compute; reflexivity)|]).
